@@ -46,7 +46,19 @@ type sessConn struct {
 	// Write (a sender descheduled there). The attempt is then started: it must not dial while that write is in flight
 	// (observed for 150 ms: does the server get a new connection?). Then the sender is released.
 	HeldSend bool `json:"held_send,omitempty"`
+	// AppSendAt > 0 (C03, an application send while the negotiation is in progress): the scripted server holds back its
+	// AppSendAt-th answer of this connection (1: its first stream header, the answer to the client's first stream
+	// header; 2: the answer to the client's next request; ...) until another goroutine of the "application" has called
+	// Send (AppSendVia "send") or SendRaw ("raw") with a <message/> carrying a marker (appMarker) and that call has
+	// RETURNED; only then does the server answer. Whatever the call returned, the stanza must not show up at the
+	// server before the negotiation of this connection is through: it is reported among the requests of the
+	// connection (kind 50), unless it arrived after the last request of a negotiation that succeeded.
+	AppSendAt  int    `json:"app_send_at,omitempty"`
+	AppSendVia string `json:"app_send_via,omitempty"`
 }
+
+// appMarker: prefix of the id of the <message/> an application goroutine tries to send during a negotiation (C03)
+const appMarker = "xvapp-"
 
 // holdTransport: pass-through around the client's transport; the Write that carries the armed marker waits at its
 // entry until released.
@@ -399,6 +411,9 @@ func runSessionRaw(in sessIn) (*sessObs, Sx) {
 			sc.LingerMs = 3000
 		}
 		sc.Tickets = in.Tickets
+		if c.AppSendAt > 0 {
+			sc.GateAt, sc.gateReached, sc.gateRelease = c.AppSendAt, make(chan struct{}), make(chan struct{})
+		}
 		if c.SendDuring != "" {
 			sc.IdleDropMs = 8000 // the runner cuts the connection itself when it has seen what it needs
 		}
@@ -511,6 +526,23 @@ func runSessionRaw(in sessIn) (*sessObs, Sx) {
 			case <-heldDone:
 			case <-time.After(10 * time.Second):
 			}
+		}
+		if c.AppSendAt > 0 && !c.NoDial && srvIdx < len(scripts) {
+			// C03: the server has the client's request and holds back its answer: the application sends now
+			gsc := scripts[srvIdx]
+			select {
+			case <-gsc.gateReached:
+				m := fmt.Sprintf("%s%d", appMarker, len(conns))
+				if c.AppSendVia == "raw" {
+					client.SendRaw("<message id='" + m + "' to='peer@" + srvDomain + "' type='chat'><body>" + m + "</body></message>")
+				} else {
+					client.Send(stanza.Message{Attrs: stanza.Attrs{Id: m, To: "peer@" + srvDomain, Type: stanza.MessageTypeChat}, Body: m})
+				}
+			case err := <-done: // the attempt was over before the server got that far
+				done <- err
+			case <-time.After(8 * time.Second):
+			}
+			close(gsc.gateRelease)
 		}
 		var sends, resends []sendObs
 		var markers []string
@@ -788,6 +820,13 @@ func runSessionRaw(in sessIn) (*sessObs, Sx) {
 				reqs = append(reqs, L(x, B(e.Secure), Zi(sb)))
 			}
 		}
+		if cerr == nil {
+			// an application stanza that reached the server after the last request of a negotiation that succeeded
+			// was not sent during the negotiation
+			for len(reqs) > 0 && isAppSendReq(reqs[len(reqs)-1]) {
+				reqs = reqs[:len(reqs)-1]
+			}
+		}
 		// fifth component: how often the session-established state was announced to the EventHandler, by the
 		// time Client.connect returned and by the time the connection was over
 		conns = append(conns, L(LS(reqs), errSx(cerr), snapSx(snap), LS(answers), L(Zi(estabRet), Zi(estabEnd))))
@@ -798,6 +837,11 @@ func runSessionRaw(in sessIn) (*sessObs, Sx) {
 // clientTLSFlags: the two flags the TLS gate of NewSession reads, as the client's objects hold them now.
 func clientTLSFlags(c *xmpp.Client) [2]bool {
 	return [2]bool{xmpp.VerifTransportSecureFlag(xmpp.VerifTransport(c)), c.Session != nil && c.Session.TlsEnabled}
+}
+
+// isAppSendReq: the request entry (reqSx, kind 50) of an application <message/> sent during a negotiation (C03)
+func isAppSendReq(rq Sx) bool {
+	return len(rq.L) >= 1 && len(rq.L[0].L) == 2 && rq.L[0].L[0].Z == 50 && strings.HasPrefix(string(bytesOf(rq.L[0].L[1])), "message "+appMarker)
 }
 
 func allErrNil(sends []sendObs) bool {
